@@ -670,6 +670,11 @@ fn inlined_twin(def: &Def) -> Option<Def> {
             continue;
         }
         let text = refa::inline_subpatterns(&refa::lit_regex_text(&p.lit), &subs).ok()?;
+        if p.lit.bytes && !text.is_ascii() {
+            // a byte-string literal cannot spell the non-ASCII text of a str subpattern without changing its meaning
+            // (raw bytes would be re-read one by one): no written-out twin for this definition
+            return None;
+        }
         p.lit = if p.lit.bytes { vmon::spec::Lit::b(text.as_bytes()) } else { vmon::spec::Lit::s(&text) };
     }
     inl.subpats.clear();
@@ -767,7 +772,12 @@ pub fn check_c12(seed: u64, i: usize) -> DefReport {
         // a str-literal subpattern whose meaning depends on its own Unicode mode
         let t = rng.pick_str(&["\\w+", "[^x]", ".", "\\pL", "[^\\x00-\\x7F]+", "(?i)k", "\\S"]);
         def.subpats.push((format!("uni{i}"), vmon::spec::Lit::s(t)));
-        def.push(vmon::spec::Pat::regex(&format!("#(?&uni{i})"), 0).prio(70 + rng.below(9)));
+        if rng.chance(1, 2) {
+            // referenced from a byte-string pattern: the str subpattern keeps its Unicode mode there too
+            def.push(vmon::spec::Pat::new(PatKind::Regex, vmon::spec::Lit::b(format!("#(?&uni{i})+").as_bytes()), 0).prio(70 + rng.below(9)));
+        } else {
+            def.push(vmon::spec::Pat::regex(&format!("#(?&uni{i})"), 0).prio(70 + rng.below(9)));
+        }
         def.normalize();
     }
     let mut injected = false;
